@@ -30,11 +30,33 @@ BUDGET_S = {'quick': 55, 'thorough': 540}
 KNOBS = {'n_steps': [60, 100, 160]}
 
 
+HISTORY_COUNT = {'quick': 240, 'thorough': 5000}
+HISTORY_KNOBS = {'n_min': 2, 'n_max': 4, 'late_p': 0.2, 'trigger_p': 0.2, 'both_p': 0.4, 'mismatch_p': 0.35,
+                 'fence': 'true', 'n_dist': [1, 2, 2, 3, 3, 4],
+                 'kinds': ['crash', 'restart', 'restart', 'partition', 'partition', 'cutlink', 'cutlink', 'cutlink',
+                           'crash_master', 'restart_master'],
+                 'apps': {'n_apps': (1, 2), 'n_progs': (1, 3), 'startsecs': (0, 3)}}
+
+
 def plan(tier, seed):
-    return [{'seed': seed * 1000003 + i, 'family': 'fuzz'} for i in range(COUNT[tier])]
+    # two families: the L2 fuzz, and real histories of isolation in clusters of real instances (L3)
+    cases = [{'seed': seed * 1000003 + i, 'family': 'fuzz'} for i in range(COUNT[tier])]
+    cases += [{'seed': seed * 1000003 + 600000 + i, 'family': 'history'} for i in range(HISTORY_COUNT[tier])]
+    return cases
 
 
 def run_case(case):
+    if case.get('family') == 'history':
+        from monitors.lib_c13 import IsolationMonitor
+        from workloads.membership import Run
+        mon = IsolationMonitor()
+        run = Run(case, HISTORY_KNOBS, [mon])
+        violations = run.execute()
+        c = {'history_' + k: v for k, v in mon.counters.items()}
+        nontrivial = mon.counters.get('isolations', 0) > 0
+        return {'violations': violations, 'counters': c,
+                'signature': ('h|' + run.shape() + '|' + str(bool(run.describe().get('instance_options'))))
+                if nontrivial else None, 'sample': run.describe()}
     run = FuzzRun(case, KNOBS)
     violations = run.execute()
     c = run.counters
